@@ -1152,6 +1152,7 @@ def normalize(modules) -> Report:
     n2.expand_ifexp(modules, known, rep)
     n2.while_to_for(modules, known, rep)
     n2.unroll_constant_loops(modules, known, rep)
+    n2.constant_attr_access(modules, rep)
     n2.expand_table_dispatch(modules, known, rep)
     n2.expand_keyed_arms(modules, known, rep)
     n2.split_tuple_locals(modules, known, rep)
